@@ -12,6 +12,7 @@ import (
 	"github.com/protolambda/ztyp/view"
 
 	"verif/internal/chainh"
+	"verif/internal/chainx"
 	"verif/internal/core"
 	"verif/internal/statex"
 	"verif/internal/sszx"
@@ -40,7 +41,7 @@ func sszPresets(tier string) []sszx.Preset {
 
 func runSSZ(prop string) {
 	run := core.NewRun(prop, "exploration")
-	run.SetDeadline(core.Budget(160*time.Second, 25*time.Minute))
+	run.SetDeadline(core.Budget(240*time.Second, 25*time.Minute))
 	var st sszx.Stats
 	presets := sszPresets(run.Tier)
 	pairsBelow := 25
@@ -61,6 +62,22 @@ func runSSZ(prop string) {
 			w := statex.NewWorld(ps.Spec, sszx.ParamsOf(ps.Spec))
 			statex.Sequences(run, w, ps.Name, depth, &dyn)
 		}
+		// (c) the states that real transitions produce, many of them at the same time (16 workers each advancing its own
+		// states): bytes and cached root of every state reached vs the specification — roots computed inside the
+		// transition (state_roots, block_roots, header) are part of the content
+		var cst chainx.Stats
+		for _, sc := range chainh.Scenarios(run.Tier) {
+			if sc.Name != "healthy/all-forks" {
+				continue
+			}
+			c := *sc
+			c.Menu = chainh.SmallMenu
+			chainx.Explore(run, &c, chainx.Options{Property: "C05", K: 1}, &cst)
+		}
+		run.Set("chain_states_compared", cst.States)
+		run.Set("chain_histories", cst.Histories)
+		dyn.Evals += cst.Transitions
+		dyn.NonTrivial += cst.States
 		run.Set("dynamic_root_queries", dyn.Evals)
 		run.Set("dynamic_sequences_completed", dyn.NonTrivial)
 		run.Set("dynamic_rule", "every sequence of <= depth mutations (setters, element writes, appends, resets, subtree replacements; ~60 per fork) on the tree-backed state of each of the 6 forks, x every pattern of intermediate HashTreeRoot queries x root cached or not before the first mutation: cached root = root of the same content built from scratch = SSZ root, and content = model")
@@ -98,7 +115,7 @@ func init() { commands["c15"] = func(a []string) { runC15() } }
 
 func runC15() {
 	run := core.NewRun("C15", "model_checking")
-	run.SetDeadline(core.Budget(160*time.Second, 25*time.Minute))
+	run.SetDeadline(core.Budget(240*time.Second, 25*time.Minute))
 	var st statex.Stats
 	depth := 2
 	if run.Tier == "thorough" {
